@@ -13,7 +13,7 @@ fn step(x: u8) -> ControlFlow<u8, Src> {
         ControlFlow::Break(x)
     } else {
         let n = core::cmp::min((x & 3) as usize, 2);
-        ControlFlow::Continue(Src::of([x & 0x7c, (x & 0x7c) | 1, 0], n))
+        ControlFlow::Continue(Src::of([x & 0x7c, (x & 0x7c) | 1, 0, 0, 0, 0], n))
     }
 }
 fn outs(x: u8) -> usize {
